@@ -168,9 +168,11 @@ func VerifC11Worker() {
 	if !lateB {
 		mgr.resourceCache.Store("resB", resources["resB"])
 	}
+	// a roomy commit queue, or one that is full after a single entry (re-queueing under pressure)
+	qcap := []int{8, 1}[vrt.Choice("queue.capacity", vrt.Param("queues", 2))]
 	aw := &AsyncWorker{
-		conf:                       AsyncWorkerConfig{BufferLimit: 12, BufferCleanInterval: interval, ReceiveChanSize: 8, CommitWorkerCount: 1, CommitWorkerBufferSize: 4},
-		commitQueue:                make(chan phaseTwoContext, 8),
+		conf:                       AsyncWorkerConfig{BufferLimit: 12, BufferCleanInterval: interval, ReceiveChanSize: qcap, CommitWorkerCount: 1, CommitWorkerBufferSize: 4},
+		commitQueue:                make(chan phaseTwoContext, qcap),
 		resourceMgr:                mgr,
 		commitWorker:               fanout.New("c11", fanout.WithWorker(1), fanout.WithBuffer(4)),
 		branchCommitTotal:          c11Counter{},
@@ -222,4 +224,70 @@ func VerifC11Worker() {
 		d.mu.Unlock()
 	}
 	vrt.Assert(len(aw.commitQueue) == 0, "c11/queue-drained")
+}
+
+// VerifC11Requeue: the re-queue paths under queue pressure, deterministically:
+// the commit queue (capacity 1) is already full when a group whose resource is
+// unknown / whose connection cannot be acquired / whose delete fails has to be
+// put back; a consumer then drains the queue. Every branch that was answered
+// 'committed' must come out again (or have its undo log deleted).
+func VerifC11Requeue() {
+	undo.RegisterUndoLogManager(undomysql.NewUndoLogManager())
+	d := &c11DB{name: "resA"}
+	cause := vrt.Choice("requeue.cause", 3) // 0 unknown resource, 1 no connection, 2 delete fails
+	mgr := &ATSourceManager{resourceCache: sync.Map{}, basic: datasource.NewBasicSourceManager(), rmRemoting: rm.GetRMRemotingInstance()}
+	if cause != 0 {
+		mgr.resourceCache.Store("resA", &DBResource{resourceID: "resA", dbType: types.DBTypeMySQL, db: sql.OpenDB(c11Connector{d}), dbName: "resA"})
+	}
+	if cause == 1 {
+		d.connFails = 1
+	}
+	if cause == 2 {
+		d.delFails = 2
+	}
+	aw := &AsyncWorker{
+		conf:                       AsyncWorkerConfig{BufferLimit: 12, BufferCleanInterval: 5 * time.Millisecond, ReceiveChanSize: 1, CommitWorkerCount: 1, CommitWorkerBufferSize: 4},
+		commitQueue:                make(chan phaseTwoContext, 1),
+		resourceMgr:                mgr,
+		branchCommitTotal:          c11Counter{},
+		doBranchCommitFailureTotal: c11Counter{},
+		receiveChanLength:          c11Gauge{},
+		rePutBackToQueue:           c11Counter{},
+	}
+	n := 1 + vrt.Choice("group.size", 2)
+	var group []phaseTwoContext
+	for k := 0; k < n; k++ {
+		x := vrt.String([]string{"g0.xid", "g1.xid"}[k], 2)
+		group = append(group, phaseTwoContext{Xid: x, BranchID: int64(k + 1), ResourceID: "resA"})
+		d.rows = append(d.rows, &c11Row{xid: x, branch: int64(k + 1), present: true})
+	}
+	aw.commitQueue <- phaseTwoContext{Xid: "other", BranchID: 99, ResourceID: "resA"} // the queue is full
+	done := false
+	go func() {
+		aw.dealWithGroupedContexts("resA", group)
+		done = true
+	}()
+	var out []phaseTwoContext
+	for round := 0; round < 8 && !(done && len(aw.commitQueue) == 0); round++ {
+		vrt.Settle()
+		select {
+		case c := <-aw.commitQueue:
+			out = append(out, c)
+		default:
+		}
+		time.Sleep(6 * time.Millisecond)
+	}
+	vrt.Settle()
+	vrt.Reach("c11/requeue-drained")
+	vrt.Assert(done, "c11/requeue-terminates")
+	for k, g := range group {
+		seen := false
+		for _, c := range out {
+			if c.Xid == g.Xid && c.BranchID == g.BranchID {
+				seen = true
+			}
+		}
+		deleted := !d.rows[k].present
+		vrt.Assert(seen || deleted, "c11/requeued-branch-is-not-lost")
+	}
 }
